@@ -121,3 +121,15 @@ package types
 
 //@ func (UnlockConditions).UnlockHash
 //@   abstract
+
+// ------------------------------------------------------------------ types.go: IDs as 256-bit numbers
+
+//@ spec blimb(a [32]byte, i int) int = a[i]*2^56 + a[i+1]*2^48 + a[i+2]*2^40 + a[i+3]*2^32 + a[i+4]*2^24 + a[i+5]*2^16 + a[i+6]*2^8 + a[i+7]
+//@ spec b256(a [32]byte) int = blimb(a, 0)*2^192 + blimb(a, 8)*2^128 + blimb(a, 16)*2^64 + blimb(a, 24)
+
+//@ func (BlockID).CmpWork
+//@   prop C13
+//@   ensures @order result == (b256(t) < b256(bid) ? -1 : (b256(t) == b256(bid) ? 0 : 1))
+
+//@ func (BlockHeader).ID
+//@   abstract
